@@ -460,24 +460,24 @@ pub fn run(env: &mut Env) {
             }
             split.push((s0, left));
         }
-        // sweeps over the whole domain: every 16001st day, and the year-end fortnight of every 499th
-        // year (phase from the seed), for the formatted fields; every 41st day for the getters
+        // sweeps over the whole domain: every 1009th day, and the year-end fortnight of every 23rd
+        // year (phase from the seed), for the formatted fields; every 5th day for the getters
         let ph = env.seed as i64;
-        let mut d = cal::MIN_DAY + ph.rem_euclid(16_001);
+        let mut d = cal::MIN_DAY + ph.rem_euclid(1009);
         while d <= cal::MAX_DAY {
             split.push((d, 1));
-            d += 16_001;
+            d += 1009;
         }
-        let mut y = cal::MIN_YMD.0 + 1 + ph.rem_euclid(499);
+        let mut y = cal::MIN_YMD.0 + 1 + ph.rem_euclid(23);
         while y < cal::MAX_YMD.0 {
             if y != 0 {
                 split.push((cal::days_from_ymd(y, 12, 25), 14));
             }
-            y += 499;
+            y += 23;
         }
         format_runs(env, std::sync::Arc::new(split));
-        getters_stride(env, 41);
-        env.exhaustive_parts.push("C02 (quick): weekday()/day_of_year() of every 41st day of the whole range; w/q/e/D fields of every 16001st day and of Dec 25..Jan 7 of every 499th year (phases from the seed)".into());
+        getters_stride(env, 5);
+        env.exhaustive_parts.push("C02 (quick): weekday()/day_of_year() of every 5th day of the whole range; w/q/e/D fields of every 1009th day and of Dec 25..Jan 7 of every 23rd year (phases from the seed)".into());
         let years: Vec<i64> = (-1300i64..=2600).chain(-5_879_611..=-5_879_500).chain(5_879_500..=5_879_611).filter(|y| *y != 0).collect();
         set_doy_years(env, std::sync::Arc::new(years));
         env.run_random::<DayFields>(500_000);
